@@ -32,6 +32,14 @@ WORLD_OPS = ('defclass', 'deffunc')
 QUERY_OPS = ('bear', 'sub', 'thsub', 'theq', 'call')
 
 
+def _hashable(x) -> bool:
+    try:
+        hash(x)
+        return True
+    except TypeError:
+        return False
+
+
 class Interp:
     def __init__(self, observe: bool):
         import typing
@@ -53,6 +61,7 @@ class Interp:
         self.id_shadow: dict[tuple, tuple] = {}       # (table, ida, idb) -> fingerprints at insertion
         self.repr_seen: dict[str, set] = {}           # repr(hint) -> class-generation fingerprints
         self.confs = None
+        self.reps: list = []                          # one representative hint per observed `==` class (observe mode)
 
     # -- configurations ---------------------------------------------------------------------------
     def conf(self, k):
@@ -131,6 +140,17 @@ class Interp:
             return {self.obj(a): self.obj(b) for a, b in e[1:]}
         raise ValueError(f'object expression {e!r}')
 
+    def eqc(self, h) -> int:
+        """Number of the class of `h` under Python's own `==` among the hints of this history."""
+        for k, r in enumerate(self.reps):
+            try:
+                if r is h or r == h:
+                    return k
+            except Exception:                         # noqa: BLE001
+                pass
+        self.reps.append(h)
+        return len(self.reps) - 1
+
     def fp(self, e):
         """Fingerprint of a hint expression with class generations made absolute: equal fingerprints <=> the
         same expression over the same class objects."""
@@ -150,16 +170,17 @@ class Interp:
 
     # -- world ----------------------------------------------------------------------------------------
     def defclass(self, name, beartyped):
-        before = None
-        if self.observe and beartyped:
-            from beartype.door._cls.doormeta import _HINT_TO_WRAPPER
-            before = len(_HINT_TO_WRAPPER._key_to_value)
+        ob = None
+        if self.observe:
             from beartype._decor._type.decortype import _BEARTYPED_MODULE_TO_TYPE_NAME
-            if name in _BEARTYPED_MODULE_TO_TYPE_NAME.get(MOD, ()):
+            cleared = bool(beartyped) and name in _BEARTYPED_MODULE_TO_TYPE_NAME.get(MOD, ())
+            if cleared:
                 self.stats['clear_by_redefinition'] += 1
+            ob = {'kind': 'defclass', 'cleared': cleared}
         src = ('@beartype\n' if beartyped else '') + f'class {name}:\n    pass\n'
         exec(compile(src, f'<{MOD}>', 'exec'), self.m.__dict__)
         self.gens.setdefault(name, []).append(self.m.__dict__[name])
+        return ob
 
     def deffunc(self, fname, hintsrc, conf):
         ns = self.m.__dict__
@@ -249,7 +270,7 @@ class Interp:
             self.stats['repr_collision'] += 1
         if hit:
             self.stats['checker_hit'] += 1
-        return {'kind': 'bear', 'table': api, 'fp': f, 'repr': r, 'hashable': hashable, 'hit': bool(hit),
+        return {'kind': 'bear', 'table': api, 'fp': f, 'eqc': self.eqc(h), 'repr': r, 'hashable': hashable, 'hit': bool(hit),
                 'repr_present': r in reprt}
 
     def observe_bear_after(self, obs, api, h, cf):
@@ -321,7 +342,8 @@ class Interp:
                 stale = sh is not None and sh != (fa, fb)
                 if stale:
                     self.stats['id_stale_hit'] += 1
-            obs = {'kind': kind, 'fa': fa, 'fb': fb, 'ida': id(wa), 'idb': id(wb), 'whit_a': hita, 'whit_b': hitb,
+            obs = {'kind': kind, 'fa': fa, 'fb': fb, 'eqa': self.eqc(a), 'eqb': self.eqc(b), 'hasha': _hashable(a),
+                   'hashb': _hashable(b), 'ida': id(wa), 'idb': id(wb), 'whit_a': hita, 'whit_b': hitb,
                    'reused_a': ra, 'reused_b': rb, 'idhit': bool(idhit), 'stale': stale}
         if kind == 'thsub':
             ans = self.answer(lambda: wa.is_subhint(wb))
@@ -345,10 +367,11 @@ class Interp:
             k = op[0]
             a, ob = None, None
             if k == 'defclass':
-                self.defclass(op[1], op[2])
+                ob = self.defclass(op[1], op[2])
             elif k == 'deffunc':
                 try:
                     self.deffunc(op[1], op[2], op[3] if len(op) > 3 else 0)
+                    a = ['ok', 'decorated']
                 except Exception as ex:               # noqa: BLE001 - decoration-time failure is part of the world
                     a = ['exc', type(ex).__name__]
             elif k == 'bear':
